@@ -76,6 +76,11 @@ def systematic():
     # answering, the primary's "no such record" is the answer
     out.append({"origin": "evicted-hash-still-in-replica", "steps": [L("alice", "p1"), L("bob", "p1"), SY, {"op": "change", "user": "alice", "pw": "p2"}, L("alice", "p1")] + down +
                 [L("alice", "p1"), L("bob", "p1"), L("alice", "p2")] + up + [L("alice", "p2")] + down + [L("alice", "p2"), L("alice", "p1")]})
+    # the store refuses everything while the directory answers: the directory's word is final, whether or not the record
+    # can be refreshed or evicted
+    DOR = {"op": "dboutage", "mode": "refuse"}
+    out.append({"origin": "store-down-directory-up", "steps": [L("alice", "p1"), DOR, L("alice", "p1"), L("bob", "p1"), L("alice", "p2"), L("bob", "p3"), DR, L("alice", "p1"),
+                                                               {"op": "change", "user": "bob", "pw": "p2"}, DOR, L("bob", "p2"), L("bob", "p1"), DR, L("bob", "p2")]})
     out.append({"origin": "replica-ages-too", "steps": [L("bob", "p1"), SY, {"op": "halflife", "user": "bob"}, {"op": "halflife", "user": "bob"}] + down + [DO, L("bob", "p1"), DR, L("bob", "p1")]})
     for how in ("swapsubject", "alterhash", "extendcolumn", "resign"):
         out.append({"origin": "tamper-" + how, "steps": [L("alice", "p1"), L("bob", "p1"), {"op": "expire", "user": "alice"} if how == "extendcolumn" else L("bob", "p1"),
